@@ -377,7 +377,11 @@ func ruleALStr(c *Ctx) {
 					if v.High != nil {
 						hi, isHi = constInt(v.High)
 					}
-					c.Check(fn.Name() == "Close" && isSDataLoad(v.X) && v.Low == nil && isHi && hi == 0, key, P.pos(st.Pos()), "Close: sData = sData[:0]", "the string store is truncated outside Close: strings still in use would be overwritten")
+					lowZero := v.Low == nil
+					if z, isK := constInt(v.Low); v.Low != nil && isK && z == 0 {
+						lowZero = true
+					}
+					c.Check(fn.Name() == "Close" && isSDataLoad(v.X) && lowZero && isHi && hi == 0, key, P.pos(st.Pos()), "Close: sData = sData[:0]", "the string store is truncated outside Close: strings still in use would be overwritten")
 				default:
 					c.Bad(key, P.pos(st.Pos()), "the string store is overwritten")
 				}
@@ -425,6 +429,14 @@ func ruleALStr(c *Ctx) {
 			if isB && bi.Name() == "len" && isSDataLoad(ln.Call.Args[0]) && app != nil && dominatesInstr(ln, app) && dominatesInstr(app, sl) {
 				// the result is a string view of that slice
 				for _, r := range returnsOf(ts) {
+					// unsafe.String(unsafe.SliceData(view), len(view))
+					if call, ok := resolvedResults(r)[0].(*ssa.Call); ok && isBuiltinCall(call, "String") && len(call.Call.Args) == 2 {
+						sd, ok1 := call.Call.Args[0].(*ssa.Call)
+						ln2, ok2 := stripConv(call.Call.Args[1]).(*ssa.Call)
+						if ok1 && ok2 && isBuiltinCall(sd, "SliceData") && isBuiltinCall(ln2, "len") && sd.Call.Args[0] == ssa.Value(sl) && ln2.Call.Args[0] == ssa.Value(sl) {
+							okView = true
+						}
+					}
 					if ld, ok := resolvedResults(r)[0].(*ssa.UnOp); ok {
 						if cv, ok := ld.X.(*ssa.Convert); ok {
 							if cv2, ok := cv.X.(*ssa.Convert); ok {
@@ -474,17 +486,23 @@ func ruleALBump(c *Ctx) {
 	// ptr = unsafe.Pointer(uintptr(array) + uintptr(i*size))
 	var idx ssa.Value
 	okPtr := false
+	// unsafe.Pointer(uintptr(array) + uintptr(i*size)) or unsafe.Add(array, i*size)
+	var base, off ssa.Value
 	if cv, ok := ptr.(*ssa.Convert); ok {
 		if add, ok := cv.X.(*ssa.BinOp); ok && add.Op == token.ADD {
-			base, off := add.X, add.Y
-			if cb, ok := base.(*ssa.Convert); ok && fieldLoad(cb.X, "array") {
-				if mul, ok := stripConv(off).(*ssa.BinOp); ok && mul.Op == token.MUL {
-					if fieldLoad(mul.Y, "size") {
-						idx, okPtr = mul.X, true
-					} else if fieldLoad(mul.X, "size") {
-						idx, okPtr = mul.Y, true
-					}
-				}
+			if cb, ok := add.X.(*ssa.Convert); ok {
+				base, off = cb.X, add.Y
+			}
+		}
+	} else if call, ok := ptr.(*ssa.Call); ok && isBuiltinCall(call, "Add") && len(call.Call.Args) == 2 {
+		base, off = call.Call.Args[0], call.Call.Args[1]
+	}
+	if base != nil && fieldLoad(base, "array") {
+		if mul, ok := stripConv(off).(*ssa.BinOp); ok && mul.Op == token.MUL {
+			if fieldLoad(mul.Y, "size") {
+				idx, okPtr = mul.X, true
+			} else if fieldLoad(mul.X, "size") {
+				idx, okPtr = mul.Y, true
 			}
 		}
 	}
@@ -542,7 +560,11 @@ func ruleALBump(c *Ctx) {
 		}
 		// the new capacity exceeds the old: phi of cap*2 and a positive constant chosen when cap*2 is smaller
 		bigger := false
-		for _, s := range phiSources(grow.Call.Args[1]) {
+		srcs := phiSources(grow.Call.Args[1])
+		if mx, ok := grow.Call.Args[1].(*ssa.Call); ok && isBuiltinCall(mx, "max") {
+			srcs = mx.Call.Args
+		}
+		for _, s := range srcs {
 			if k, ok := constInt(s); ok && k > 0 {
 				bigger = true
 			}
@@ -609,4 +631,9 @@ func ruleALBump(c *Ctx) {
 		}
 		c.Check(okLoop, fnKey(cl)+"/all-arenas", P.pos(cl.Pos()), "every arena's length is reset in a loop over rb.types", "not every arena's length is reset on Close")
 	}
+}
+
+func isBuiltinCall(call *ssa.Call, name string) bool {
+	bi, ok := call.Call.Value.(*ssa.Builtin)
+	return ok && bi.Name() == name
 }
